@@ -403,6 +403,14 @@ func (n *SimNet) decide(c *SimPacketConn, idx int, size int) Dec {
 func (n *SimNet) send(c *SimPacketConn, idx int, data []byte, to net.Addr) {
 	d := n.decide(c, idx, len(data))
 	em := Emission{At: n.S.Now(), Ep: c.name, Idx: idx, To: to.String(), Data: data, Act: int(d.A), Extra: d.B}
+	n.S.emits++
+	if n.S.emits > n.S.MaxEmits && n.S.MaxEmits > 0 && !n.S.overrun {
+		n.S.overrun = true
+		n.S.mu.Lock()
+		n.S.failed = append(n.S.failed, fmt.Sprintf("%d datagrams emitted by virtual t=%v: retransmission storm", n.S.emits, n.S.Now()))
+		n.S.mu.Unlock()
+		n.S.poke()
+	}
 	em.Seq = n.S.Record("emit", c.name, fmt.Sprintf("idx=%d len=%d to=%s act=%s %s", idx, len(data), to, actNames[d.A], DescribeDatagram(data)), data)
 	n.mu.Lock()
 	n.Emits = append(n.Emits, em)
